@@ -138,6 +138,7 @@ func (s effectSet) list() []effect {
 // database by the keys they wrote, and looks for sentinel data in the responses.
 func (w *world) effects(before, after *snapshot, resps []proto.Message) effectSet {
 	out := effectSet{}
+	w.lastDetail = nil
 	cls := func(name string) string {
 		if _, existed := before.dbs[name]; !existed && name != dbSys {
 			return "new"
@@ -182,6 +183,7 @@ func (w *world) effects(before, after *snapshot, resps []proto.Message) effectSe
 		}
 		for db := range dbs {
 			userDiff = true
+			w.lastDetail = append(w.lastDetail, fmt.Sprintf("user %s on %s: %q -> %q", name, db, b.perDB[db], a.perDB[db]))
 			c := classOfDB(db)
 			if _, ok := after.dbs[db]; !ok && db != dbSys {
 				c = "any"
@@ -269,7 +271,7 @@ func (w *world) grantedAuth(resps []proto.Message, out effectSet) (sessionIDs, t
 				if err := w.userInvoke(ctx, "CurrentState", &emptypb.Empty{}, &st); err == nil {
 					out[effect{"auth", classOfDB(st.Db)}] = true
 					tokens = append(tokens, v.String())
-				} else if err := w.userInvoke(ctx, "DatabaseList", &emptypb.Empty{}, &schema.DatabaseListResponse{}); err == nil {
+				} else if err := w.userInvoke(ctx, "ListUsers", &emptypb.Empty{}, &schema.UserList{}); err == nil {
 					out[effect{"auth", "none"}] = true
 					tokens = append(tokens, v.String())
 				}
